@@ -22,3 +22,223 @@ Proof.
   - destruct (nth nt (fst st) []) eqn:E; [|reflexivity].
     rewrite IH, full_pass_tr_fst. reflexivity.
 Qed.
+
+(* ================================================================== *)
+(* Part A: the sorted-list machinery computes the set-based definition *)
+
+Definition fm (f : nat -> option nat) (ks : list nat) : legs :=
+  flat_map (fun j => match f j with Some c => [(j, c)] | None => [] end) ks.
+Definition ounion (a b : option nat) : option nat :=
+  match a, b with
+  | Some x, Some y => Some (x + y)
+  | Some x, None => Some x
+  | None, Some y => Some y
+  | None, None => None
+  end.
+Definition oboth (a b : option nat) : bool :=
+  match a, b with Some _, Some _ => true | _, _ => false end.
+Definition lbound (j : nat) (l : legs) : Prop := Forall (fun kv => j < fst kv) l.
+
+Lemma fm_cons f j ks :
+  fm f (j :: ks) = match f j with Some c => (j, c) :: fm f ks | None => fm f ks end.
+Proof. unfold fm; cbn [flat_map]. destruct (f j); reflexivity. Qed.
+
+Lemma fm_lbound f len : forall lo j, j < lo -> lbound j (fm f (seq lo len)).
+Proof.
+  induction len as [|len IH]; intros lo j Hj; cbn [seq].
+  - constructor.
+  - rewrite fm_cons. destruct (f lo).
+    + constructor; [cbn; lia | apply IH; lia].
+    + apply IH; lia.
+Qed.
+
+Lemma fm_ext f g ks : (forall j, In j ks -> f j = g j) -> fm f ks = fm g ks.
+Proof.
+  induction ks as [|k ks IH]; intros H; [reflexivity|].
+  rewrite !fm_cons, (H k (or_introl eq_refl)), IH; [reflexivity|].
+  intros j Hj; apply H; right; exact Hj.
+Qed.
+
+Lemma merge_nil_r a : merge_legs a [] = (a, false).
+Proof. destruct a as [|[ia ca] a']; reflexivity. Qed.
+
+Lemma merge_cons_cons ia ca a' jb cb b' :
+  merge_legs ((ia, ca) :: a') ((jb, cb) :: b') =
+  if ia <? jb then let r := merge_legs a' ((jb, cb) :: b') in ((ia, ca) :: fst r, snd r)
+  else if jb <? ia then let r := merge_legs ((ia, ca) :: a') b' in ((jb, cb) :: fst r, snd r)
+  else let r := merge_legs a' b' in ((ia, ca + cb) :: fst r, true).
+Proof. reflexivity. Qed.
+
+Lemma merge_head_l j c a' b : lbound j b ->
+  merge_legs ((j, c) :: a') b = ((j, c) :: fst (merge_legs a' b), snd (merge_legs a' b)).
+Proof.
+  intros Hb. destruct b as [|[jb cb] b'].
+  - rewrite !merge_nil_r. reflexivity.
+  - rewrite merge_cons_cons. inversion Hb as [|? ? H1 H2]; subst. cbn [fst] in H1.
+    destruct (j <? jb) eqn:E; [reflexivity|]. apply Nat.ltb_ge in E. lia.
+Qed.
+
+Lemma merge_head_r j c a b' : lbound j a ->
+  merge_legs a ((j, c) :: b') = ((j, c) :: fst (merge_legs a b'), snd (merge_legs a b')).
+Proof.
+  intros Ha. destruct a as [|[ia ca] a'].
+  - reflexivity.
+  - rewrite merge_cons_cons. inversion Ha as [|? ? H1 H2]; subst. cbn [fst] in H1.
+    destruct (ia <? j) eqn:E; [apply Nat.ltb_lt in E; lia|].
+    destruct (j <? ia) eqn:E2; [reflexivity|]. apply Nat.ltb_ge in E2. lia.
+Qed.
+
+Lemma merge_head_eq j ca cb a' b' :
+  merge_legs ((j, ca) :: a') ((j, cb) :: b') = ((j, ca + cb) :: fst (merge_legs a' b'), true).
+Proof. rewrite merge_cons_cons, Nat.ltb_irrefl. reflexivity. Qed.
+
+Lemma merge_fm f g len : forall lo,
+  merge_legs (fm f (seq lo len)) (fm g (seq lo len)) =
+  (fm (fun j => ounion (f j) (g j)) (seq lo len),
+   existsb (fun j => oboth (f j) (g j)) (seq lo len)).
+Proof.
+  induction len as [|len IH]; intros lo; cbn [seq].
+  - reflexivity.
+  - rewrite !fm_cons. cbn [existsb]. specialize (IH (S lo)).
+    destruct (f lo) as [c1|], (g lo) as [c2|]; cbn [ounion oboth orb].
+    + rewrite merge_head_eq, IH. reflexivity.
+    + rewrite merge_head_l by (apply fm_lbound; lia). rewrite IH. reflexivity.
+    + rewrite merge_head_r by (apply fm_lbound; lia). rewrite IH. reflexivity.
+    + exact IH.
+Qed.
+
+Lemma existsb_ext_in {A} (f g : A -> bool) l : (forall x, In x l -> f x = g x) -> existsb f l = existsb g l.
+Proof.
+  induction l as [|x l IH]; intros H; [reflexivity|]. cbn [existsb].
+  rewrite (H x (or_introl eq_refl)), IH; [reflexivity|]. intros y Hy; apply H; right; exact Hy.
+Qed.
+
+Section PartA.
+Variable nodes : list legs.
+Variable app : list nat.
+Variable szs : list Z.
+Notation cnt := (cnt nodes).
+Notation surv := (surv nodes app).
+Notation legs_of := (legs_of nodes app).
+Notation nix := (length app).
+
+Definition dimsw (f : nat -> bool) (ks : list nat) : Z :=
+  fold_right (fun j a => if f j then (szn szs j * a)%Z else a) 1%Z ks.
+
+Lemma dimsw_ext f g ks : (forall j, In j ks -> f j = g j) -> dimsw f ks = dimsw g ks.
+Proof.
+  induction ks as [|k ks IH]; intros H; [reflexivity|]. cbn [dimsw fold_right].
+  rewrite (H k (or_introl eq_refl)). fold (dimsw f ks) (dimsw g ks). rewrite IH; [reflexivity|].
+  intros j Hj; apply H; right; exact Hj.
+Qed.
+
+Lemma scan_cons kv tl :
+  scan app szs (kv :: tl) =
+  let acc := scan app szs tl in
+  let d := szn szs (fst kv) in
+  if Nat.eqb (snd kv) (appn app (fst kv))
+  then (fst acc, ((fst (snd acc) * d)%Z, snd (snd acc)))
+  else (kv :: fst acc, ((fst (snd acc) * d)%Z, (snd (snd acc) * d)%Z)).
+Proof. reflexivity. Qed.
+
+Lemma scan_fm h ks :
+  scan app szs (fm h ks) =
+  (fm (fun j => match h j with
+                | Some c => if Nat.eqb c (appn app j) then None else Some c
+                | None => None end) ks,
+   (dimsw (fun j => match h j with Some _ => true | None => false end) ks,
+    dimsw (fun j => match h j with Some c => negb (Nat.eqb c (appn app j)) | None => false end) ks)).
+Proof.
+  induction ks as [|k ks IH]; [reflexivity|].
+  rewrite !fm_cons. cbn [dimsw fold_right].
+  fold (dimsw (fun j => match h j with Some _ => true | None => false end) ks).
+  fold (dimsw (fun j => match h j with Some c => negb (Nat.eqb c (appn app j)) | None => false end) ks).
+  destruct (h k) as [c|].
+  - rewrite scan_cons, IH. cbn [fst snd].
+    destruct (Nat.eqb c (appn app k)); cbn [negb]; rewrite !(Z.mul_comm (szn szs k)); reflexivity.
+  - exact IH.
+Qed.
+
+Lemma cnt_lor S1 S2 j : N.land S1 S2 = 0%N -> cnt (N.lor S1 S2) j = cnt S1 j + cnt S2 j.
+Proof.
+  intros Hd. unfold Optimal.cnt.
+  induction (seq 0 (length nodes)) as [|i is IH]; [reflexivity|].
+  cbn [fold_right]. rewrite IH, N.lor_spec.
+  assert (Hb : N.testbit S1 (N.of_nat i) && N.testbit S2 (N.of_nat i) = false).
+  { rewrite <- N.land_spec, Hd. apply N.bits_0. }
+  destruct (N.testbit S1 (N.of_nat i)), (N.testbit S2 (N.of_nat i)); cbn in *; try discriminate; lia.
+Qed.
+
+Lemma cnt_le_all S j : cnt S j <= cnt_all nodes j.
+Proof.
+  unfold Optimal.cnt, cnt_all.
+  induction (seq 0 (length nodes)) as [|i is IH]; [apply le_n|].
+  cbn [fold_right]. destruct (N.testbit S (N.of_nat i)); lia.
+Qed.
+
+Definition hS (S : N) (j : nat) : option nat := if surv S j then Some (cnt S j) else None.
+
+Lemma legs_of_fm S : legs_of S = fm (hS S) (seq 0 nix).
+Proof.
+  unfold Optimal.legs_of, fm, hS. apply flat_map_ext. intros j. destruct (surv S j); reflexivity.
+Qed.
+
+Hypothesis Happ : forall j, j < nix -> cnt_all nodes j <= appn app j.
+
+Ltac ltb_cases :=
+  repeat match goal with
+         | |- context [Nat.ltb ?x ?y] => destruct (Nat.ltb_spec x y)
+         | |- context [Nat.eqb ?x ?y] => destruct (Nat.eqb_spec x y)
+         end; cbn; try reflexivity; try lia; try (f_equal; lia);
+  repeat match goal with
+         | |- context [Nat.eqb ?x ?y] => destruct (Nat.eqb_spec x y)
+         end; cbn; try reflexivity; try lia; try (f_equal; lia).
+
+Lemma pointwise S1 S2 j : N.land S1 S2 = 0%N -> j < nix ->
+  let h := ounion (hS S1 j) (hS S2 j) in
+  (match h with Some c => if Nat.eqb c (appn app j) then None else Some c | None => None end)
+    = hS (N.lor S1 S2) j
+  /\ (match h with Some _ => true | None => false end) = (surv S1 j || surv S2 j)
+  /\ (match h with Some c => negb (Nat.eqb c (appn app j)) | None => false end) = surv (N.lor S1 S2) j
+  /\ oboth (hS S1 j) (hS S2 j) = (surv S1 j && surv S2 j).
+Proof.
+  intros Hd Hj.
+  assert (Hle : cnt S1 j + cnt S2 j <= appn app j).
+  { rewrite <- cnt_lor by exact Hd. etransitivity; [apply cnt_le_all | apply Happ, Hj]. }
+  unfold hS, Optimal.surv. rewrite (cnt_lor S1 S2 j Hd).
+  set (c1 := cnt S1 j) in *. set (c2 := cnt S2 j) in *. set (a := appn app j) in *.
+  cbv zeta.
+  repeat split; ltb_cases.
+Qed.
+
+Lemma scan_merged S1 S2 : N.land S1 S2 = 0%N ->
+  let m := merge_legs (legs_of S1) (legs_of S2) in
+  snd m = shares nodes app S1 S2 /\
+  scan app szs (fst m) = (legs_of (N.lor S1 S2), (step_flops nodes app szs S1 S2, step_size nodes app szs S1 S2)).
+Proof.
+  intros Hd. cbv zeta. rewrite !legs_of_fm, merge_fm. cbn [fst snd]. split.
+  - unfold shares. apply existsb_ext_in. intros j Hj. apply in_seq in Hj.
+    apply (pointwise S1 S2 j Hd). lia.
+  - rewrite scan_fm. unfold step_flops, step_size, dims_where.
+    fold (dimsw (fun j => surv S1 j || surv S2 j) (seq 0 nix)).
+    fold (dimsw (surv (N.lor S1 S2)) (seq 0 nix)).
+    f_equal; [|f_equal].
+    + apply fm_ext. intros j Hj. apply in_seq in Hj. apply (pointwise S1 S2 j Hd). lia.
+    + apply dimsw_ext. intros j Hj. apply in_seq in Hj. apply (pointwise S1 S2 j Hd). lia.
+    + apply dimsw_ext. intros j Hj. apply in_seq in Hj. apply (pointwise S1 S2 j Hd). lia.
+Qed.
+
+(* the six cost functions compute the objective's definition *)
+Lemma con_cost_spec o S1 S2 a b : N.land S1 S2 = 0%N ->
+  con_cost app szs o (fst (merge_legs (legs_of S1) (legs_of S2))) a b =
+  (legs_of (N.lor S1 S2), combine_sc o a b (step_cost nodes app szs o S1 S2)).
+Proof.
+  intros Hd. unfold con_cost. destruct (scan_merged S1 S2 Hd) as [_ Hs]. rewrite Hs. cbn [fst snd].
+  destruct o; reflexivity.
+Qed.
+
+Lemma merge_shares S1 S2 : N.land S1 S2 = 0%N ->
+  snd (merge_legs (legs_of S1) (legs_of S2)) = shares nodes app S1 S2.
+Proof. intros Hd. apply (scan_merged S1 S2 Hd). Qed.
+
+End PartA.
